@@ -354,7 +354,7 @@ func c05R3(p *core.Prog, r *core.Report) {
 	var seek ssa.Instruction
 	core.Calls(fn, func(c ssa.CallInstruction) {
 		if g := core.CalleeFn(c); g != nil {
-			switch g.Name() {
+			switch canon(g) {
 			case "blobPutUploadFull":
 				full, _ = c.(*ssa.Call)
 			case "blobPutUploadChunked":
@@ -380,7 +380,7 @@ func c05R3(p *core.Prog, r *core.Report) {
 			return false
 		}
 		g := core.CalleeFn(c)
-		return g != nil && g.Name() == "blobUploadCancel"
+		return g != nil && canon(g) == "blobUploadCancel"
 	}
 	// the cancel may be deferred behind a flag: `abandon := false; defer func(){ if abandon { cancel } }()`.
 	// Setting the flag then counts as the cancel.
